@@ -218,15 +218,15 @@ PROPS['C13']['bounded_part'] = ('remove_empty_*, Definition.__init__/__eq__ ("eq
                                 'stdlib Set.__and__/__iand__ on Unique; exhaustive per-operation model check over a small universe, random histories')
 PROPS['C13']['level_text'] = '18 mutator entry points and 11 container methods proved for all states and arguments; the remaining operations are bounded.'
 PROPS['C14'].update({
-    'units': ['contexts.__eq__', 'contexts.__ne__', 'tools.Unique.copy', 'tools.Unique._fromargs', 'lemma.fold_add'] + ['definitions.' + n for n in (
+    'units': ['definitions.take', 'contexts.__eq__', 'contexts.__ne__', 'tools.Unique.copy', 'tools.Unique._fromargs', 'lemma.fold_add'] + ['definitions.' + n for n in (
         '_fromargs', 'copy', 'inverted', 'transposed', 'union', 'intersection', 'union_update', 'intersection_update', 'conflicting_pairs', 'ensure_compatible')],
     'level': 'other',
-    'proved_part': 'copy, inverted, transposed, union, intersection (and |, &): the result is a new definition whose three containers are allocated by the call and shared '
+    'proved_part': 'copy, inverted, transposed, take, union, intersection (and |, &): the result is a new definition whose three containers are allocated by the call and shared '
                    'with no source (freshness obligations), with the mathematically expected table (complement, swap of axes, cell-wise or/and with conflict detection unless ignored), '
                    'sources unchanged; Context.__eq__/__ne__: equal exactly when the triples are equal',
-    'bounded_part': 'take(), involution laws, Context<->Definition round trip, shape/fill_ratio/table string/crc32 agreement, single follow-up edits',
+    'bounded_part': 'involution laws, Context<->Definition round trip, shape/fill_ratio/table string/crc32 agreement, single follow-up edits',
     'technique': 'contract-based deductive verification with freshness (allocation) obligations and view postconditions per derivation; bounded model-based stand-in for the rest',
-    'level_text': 'Five derivations and Context equality proved for all definitions; take() and the agreement clauses are bounded.',
+    'level_text': 'Six derivations and Context equality proved for all definitions; the agreement clauses (shape, fill_ratio, crc32, round trip) are bounded.',
     'level_note': 'A-HEAP (identity = allocation), SEQ/SET theories, pure set comprehension closed form generated from the real AST, assumed stdlib Set mixins on Unique.',
 })
 
